@@ -5,7 +5,7 @@
 //!    cannot take - including the case where a change moves a function out of their reach.
 //! usage: verif-witness <Cxx> [max]     prints `OK cases=<n> nontrivial=<m>` or `VIOLATION <what> :: <input>`
 #![allow(clippy::all)]
-use scale::Encode;
+use scale::{Decode, Encode};
 use scale_info::build::{Fields, Variants};
 use scale_info::form::{MetaForm, PortableForm};
 use scale_info::interner::UntrackedSymbol;
@@ -1013,6 +1013,80 @@ fn c06(st: &mut Stats, _max: u32) -> Res {
     Ok(())
 }
 
+// ------------------------------------------------------------------------------------------------
+// C07: round trip / exact consumption / injectivity on enumerated registries; C14: corrupted encodings
+fn small_registries() -> Vec<PortableRegistry> {
+    let mut regs = vec![PortableRegistry { types: vec![] }];
+    let sh = shapes(2);
+    for (i, a) in sh.iter().enumerate() {
+        regs.push(PortableRegistry { types: vec![PortableType { id: i as u32 * 1000, ty: a.clone() }] });
+        let b = &sh[(i * 7 + 3) % sh.len()];
+        regs.push(PortableRegistry { types: vec![PortableType { id: 0, ty: a.clone() }, PortableType { id: u32::MAX - i as u32, ty: b.clone() }] });
+    }
+    regs.push(PortableRegistry { types: vec![PortableType { id: 1 << 30, ty: ptype(&["ü", ""], vec![("T", Some(1 << 14)), ("Ü", None)], TypeDef::Primitive(TypeDefPrimitive::I256), &["", "long doc line ✓"]) }] });
+    regs
+}
+fn c07(st: &mut Stats, _max: u32) -> Res {
+    let regs = small_registries();
+    let mut seen: BTreeMap<Vec<u8>, usize> = BTreeMap::new();
+    for (i, r) in regs.iter().enumerate() {
+        st.cases += 1;
+        st.nontrivial += 1;
+        let bytes = r.encode();
+        ensure!(bytes == r.encode(), "encoding is not deterministic for {:?}", r);
+        let mut input = &bytes[..];
+        let back = PortableRegistry::decode(&mut input);
+        ensure!(back.as_ref().ok() == Some(r) && input.is_empty(), "decode(encode(r)) = {:?} leaving {} bytes, r = {:?}", back, input.len(), r);
+        let mut with_tail = bytes.clone();
+        with_tail.extend_from_slice(&[0xAA, 0x00, 0xFF]);
+        let mut input = &with_tail[..];
+        let back = PortableRegistry::decode(&mut input);
+        ensure!(back.as_ref().ok() == Some(r) && input == &[0xAA, 0x00, 0xFF][..], "decode does not consume exactly the encoding of {:?}", r);
+        if let Some(j) = seen.insert(bytes, i) {
+            ensure!(regs[j] == *r, "two different registries share an encoding: {:?} and {:?}", regs[j], r);
+        }
+    }
+    Ok(())
+}
+fn c14_decode(st: &mut Stats) -> Res {
+    std::panic::set_hook(Box::new(|_| {}));
+    for r in small_registries().iter().step_by(5) {
+        let bytes = r.encode();
+        let mut variants: Vec<Vec<u8>> = Vec::new();
+        for cut in 0..bytes.len() {
+            variants.push(bytes[..cut].to_vec());
+        }
+        for pos in 0..bytes.len() {
+            for bit in [0u8, 1, 7] {
+                let mut v = bytes.clone();
+                v[pos] ^= 1 << bit;
+                variants.push(v);
+            }
+            let mut v = bytes.clone();
+            v.insert(pos, 0xFF);
+            variants.push(v);
+        }
+        for v in variants {
+            st.cases += 1;
+            let res = std::panic::catch_unwind(|| {
+                let mut input = &v[..];
+                let d = PortableRegistry::decode(&mut input);
+                (d, v.len() - input.len())
+            });
+            match res {
+                Err(_) => return Err(format!("decoding {:?} panicked", v)),
+                Ok((Ok(w), used)) => {
+                    st.nontrivial += 1;
+                    ensure!(w.encode() == v[..used], "decoded {:?} from {:?} but it re-encodes to {:?}, not to the {} bytes consumed", w, v, w.encode(), used);
+                }
+                Ok((Err(_), _)) => {}
+            }
+        }
+    }
+    let _ = std::panic::take_hook();
+    Ok(())
+}
+
 fn main() {
     let args: Vec<String> = std::env::args().collect();
     let prop = args.get(1).map(|s| s.as_str()).unwrap_or("");
@@ -1021,7 +1095,8 @@ fn main() {
     let r = match prop {
         "C10" => c10(&mut st, max),
         "C12" => c12(&mut st, max),
-        "C14" => c14(&mut st, max),
+        "C14" => c14(&mut st, max).and_then(|_| c14_decode(&mut st)),
+        "C07" => c07(&mut st, max),
         "C01" => registry_histories(&mut st, max).and_then(|_| c10(&mut st, max.min(2))).and_then(|_| c12(&mut st, 3)),
         "C02" => registry_histories(&mut st, max),
         "C05" => registry_histories(&mut st, max).and_then(|_| c16(&mut st, max)),
@@ -1029,9 +1104,9 @@ fn main() {
         "C16" => c16(&mut st, max),
         "C17" => c17(&mut st, max),
         "C18" => c18(&mut st, max),
-        "C06" => c06(&mut st, max),
+        "C06" => c06(&mut st, max).and_then(|_| c07(&mut st, max)),
         _ => {
-            eprintln!("usage: verif-witness <C01|C02|C05|C06|C10|C11|C12|C14|C16|C17|C18> [max]");
+            eprintln!("usage: verif-witness <C01|C02|C05|C06|C07|C10|C11|C12|C14|C16|C17|C18> [max]");
             std::process::exit(2)
         }
     };
